@@ -148,8 +148,11 @@ def set_cookie(chk, prog):
             for o_ in cands:
                 if isinstance(o_, dict) and o_.get("k") == "const" and isinstance(o_.get("v"), str):
                     lits += " " + o_["v"]
+    # the pieces may also be collected and joined: `parts.join("; ")`
+    joined = any(core.describe(prog, body, t_["args"][1]) == ("lit", "; ") for _, t_ in body.calls_to(r"(<impl \[\S+\]>|slice::<impl \[\S+\]>|Join<.*>>?)::join$|::join$") if len(t_["args"]) > 1)
     for attr in ("Expires=", "Max-Age=", "Domain=", "Path=", "SameSite=", "Secure", "HttpOnly"):
-        chk.ob("R3.attr", f, f"attribute {attr}", ("; " + attr) in lits, f"no format piece '; {attr}' in the serialiser (RFC 6265 §4.1.1 attribute names)")
+        chk.ob("R3.attr", f, f"attribute {attr}", ("; " + attr) in lits or (joined and attr in lits),
+               f"no format piece '; {attr}' in the serialiser (RFC 6265 §4.1.1 attribute names)")
     # SameSite table
     ms = [m for m in tables.fn_tables(prog, f) if "SameSite" in m.get("scrut_ty", "")]
     chk.floor("SameSite table", len(ms), 1)
